@@ -71,5 +71,15 @@ impl TraceWriter {
 
 /// Silence the default panic message (panics inside redb are recorded as results)
 pub fn quiet_panics() {
-    std::panic::set_hook(Box::new(|_| {}));
+    if std::env::var_os("VERIF_PANICS").is_some() {
+        return;
+    }
+    // panics inside redb are data; panics of the harness itself (main thread) must be loud
+    let default = std::panic::take_hook();
+    std::panic::set_hook(Box::new(move |info| {
+        let in_harness = info.location().is_some_and(|l| l.file().contains("/verif/harness/") || l.file().starts_with("src/"));
+        if in_harness {
+            default(info);
+        }
+    }));
 }
